@@ -218,6 +218,7 @@ func universe(r *common.Rand, big bool) []ck.Blob {
 		ck.Blob{ID: 5, Kind: "manifest", MediaType: mtManifest, JSON: manifestJSON(&bs[2], []*ck.Blob{&bs[0], &bs[1]}, salt+1)},
 		ck.Blob{ID: 6, Kind: "manifest", MediaType: mtManifest, JSON: manifestJSON(&bs[2], nil, salt+2)},
 		ck.Blob{ID: 7, Kind: "badmanifest", Fill: r.U64() >> 12, MediaType: mtManifest},
+		ck.Blob{ID: 2001, Alg: "sha384", Kind: "raw", Size: 1 + r.Intn(40000), Fill: r.U64() >> 12, MediaType: mtLayer},
 		l512,
 		ck.Blob{ID: 1002, Alg: "sha512", Kind: "manifest", MediaType: mtManifest, JSON: manifestJSON(&bs[2], []*ck.Blob{&l512}, salt+3)},
 	)
@@ -410,7 +411,7 @@ var finalKinds = []string{
 	"untag", "untag-missing",
 	"delete-tagged", "delete-digest-only", "delete-raw", "delete-missing",
 	"saveindex", "reopen",
-	"push-sha512", "push-manifest-sha512", "delete-sha512",
+	"push-sha512", "push-manifest-sha512", "delete-sha512", "push-sha384",
 	"delete-after-variant-tag", "delete-variant", "tag-variant",
 	"push-undecodable", "tag-undecodable", "tag-undecodable-after-crash",
 }
@@ -497,6 +498,9 @@ func realize(r *common.Rand, kind string, s *sim, hist *[]ck.Op) ck.Op {
 	case "push-sha512":
 		ensure(1001, false)
 		return ck.Op{Kind: "push", Blob: 1001}
+	case "push-sha384":
+		ensure(2001, false)
+		return ck.Op{Kind: "push", Blob: 2001}
 	case "push-manifest-sha512":
 		ensure(1002, false)
 		return ck.Op{Kind: "push", Blob: 1002}
@@ -1445,7 +1449,7 @@ func main() {
 				(!run.Thorough() && h == 1 && kind == "push-raw-multi") // > 1 MiB: many write units
 			crashes := 0
 			if h%3 == 2 {
-				crashes = 1 + r.Intn(2) // the directory was left behind by one or two killed processes
+				crashes = 1 + r.Intn(run.Scale(2, 4)) // the directory was left behind by killed processes
 				histLen = r.Intn(4)
 			}
 			runGenerated(r, histLen, kind, big, run.Thorough(), crashes)
